@@ -219,6 +219,9 @@ def run({args}):
         _k = _n.split('::')[-1]
         if {access == 'index'!r}:
             _t = self.input_tasks[_pos]          # the same input, addressed by its position in Meta.input_tasks
+        if {access == 'lazy'!r} and _pos > 0 and not self.params['use_all']:
+            inputs[_k] = 'not read'
+            continue                              # an input this run does not need is not requested
         inputs[_k] = _norm_input(_t.value) if hasattr(_t, 'value') and hasattr(_t, 'fullname') else _t
     _RUNLOG.append((self.fullname, id(self)))
     _nth = sum(1 for _r in _RUNLOG if _r[0] == self.fullname)
